@@ -1,7 +1,12 @@
 use std::collections::HashMap;
 use std::net::SocketAddrV4;
 use std::num::NonZeroUsize;
-use std::time::{Duration, Instant};
+use std::time::Duration;
+
+#[cfg(mainline_verif)]
+use crate::verif::Instant;
+#[cfg(not(mainline_verif))]
+use std::time::Instant;
 
 use lru::LruCache;
 use tracing::error;
